@@ -62,7 +62,12 @@ def gen_material(rng, mode=None):
         m["textures"] = [name(rng, max(3, lim - 30), max(4, lim - 6)) + b".tex" for _ in range(nt)]
         m["uv_sets"] = [(name(rng, 1, 8), rng.randrange(4)) for _ in range(rng.choice([0, 2, 40, 255]))]
         m["color_sets"] = [(name(rng, 1, 8), rng.randrange(4)) for _ in range(rng.choice([0, 1, 40]))]
-    if len(m["textures"]) >= 2 and rng.random() < 0.3:
+    if m["textures"] and not large and rng.random() < 0.15:
+        # a path stored as the tail of another one (offsets may point into the middle of a stored string)
+        t0 = m["textures"][0]
+        m["textures"].append(t0[rng.randrange(1, max(2, len(t0) - 4)):])
+        m["share_suffix"] = True
+    if len(m["textures"]) >= 2 and rng.random() < 0.3 and not m.get("share_suffix"):
         order = list(range(len(m["textures"]))); rng.shuffle(order)
         m["heap_order"] = order
         m["heap_prefix"] = rng.choice([b"", b"", b"pad\0"])
@@ -105,7 +110,7 @@ def mtrl_case(ctx, rng):
     m, mode, rows, dye = gen_material(rng)
     data = mtrl.build(m)
     f = ctx.write("m.mtrl", data)
-    ctx.case(digest(data), rows is not None or bool(m["constants"]), ["mtrl", "mtrl-mode:" + mode, "mtrl-tex:%s" % (len(m["textures"]) if len(m["textures"]) <= 6 else ">6"), "mtrl-strings:%s" % ("<4KiB" if len(b"".join(m["textures"])) < 4000 else "<32KiB" if len(b"".join(m["textures"])) < 32000 else ">=32KiB"), "mtrl-heap:" + ("permuted" if m.get("heap_order") else "sequential")],
+    ctx.case(digest(data), rows is not None or bool(m["constants"]), ["mtrl", "mtrl-mode:" + mode, "mtrl-tex:%s" % (len(m["textures"]) if len(m["textures"]) <= 6 else ">6"), "mtrl-strings:%s" % ("<4KiB" if len(b"".join(m["textures"])) < 4000 else "<32KiB" if len(b"".join(m["textures"])) < 32000 else ">=32KiB"), "mtrl-heap:" + ("permuted" if m.get("heap_order") else "shared-tail" if m.get("share_suffix") else "sequential")],
              sample=dict(mode=mode, textures=[t.decode() for t in m["textures"][:2]], shpk=m["shpk"].decode(), constants=len(m["constants"]), samplers=len(m["samplers"])))
     rec = ctx.call("mtrl.parse", f, input_bytes=len(data))
     if not ctx.check_mon(rec, len(data), files=[f]):
@@ -229,9 +234,10 @@ def gen_package(rng):
 def shpk_case(ctx, rng):
     p, nodes, aliases, sels, nnodes = gen_package(rng)
     slack = rng.choice([0, 0, 0, 16])
-    data, info = shpk.build(p, slack)
+    smode = rng.choice(["nul", "nul", "packed", "shared"])
+    data, info = shpk.build(p, slack, strings=smode)
     f = ctx.write("s.shpk", data)
-    ctx.case(digest(data), nnodes >= 1, ["shpk", "shpk-dx:" + p["dx"][:4].decode().strip("\0"), "shpk-vs:%d" % len(p["vs"]), "shpk-nodes:%d" % nnodes, "shpk-defaults:%d" % (p["defaults"] is not None)],
+    ctx.case(digest(data), nnodes >= 1, ["shpk", "shpk-strings:" + smode, "shpk-dx:" + p["dx"][:4].decode().strip("\0"), "shpk-vs:%d" % len(p["vs"]), "shpk-nodes:%d" % nnodes, "shpk-defaults:%d" % (p["defaults"] is not None)],
              sample=dict(vs=len(p["vs"]), ps=len(p["ps"]), nodes=nnodes, aliases=len(aliases), length=len(data)))
     rec = ctx.call("shpk.parse", f, input_bytes=len(data))
     if not ctx.check_mon(rec, len(data), residual=False, files=[f]):
